@@ -80,8 +80,11 @@ func (a *apiServer) SendMessage(ctx context.Context, req *lospan.DownstreamMessa
 	if err != nil {
 		return nil, status.Error(codes.InvalidArgument, "Invalid EUI")
 	}
-	if req.Port > 255 || req.Port < 0 {
-		return nil, status.Error(codes.InvalidArgument, "Port must be 0-255")
+	// Application data can only be sent on FPort 1-223: port 0 is reserved for MAC
+	// commands and 224-255 are reserved; the encoder refuses those, which would leave
+	// the message marked as sent and the triggering uplink unanswered.
+	if req.Port > 223 || req.Port < 1 {
+		return nil, status.Error(codes.InvalidArgument, "Port must be 1-223")
 	}
 	msg := model.DownstreamMessage{
 		DeviceEUI:   eui,
